@@ -22,6 +22,7 @@ type Env struct {
 	calleeMode  bool
 	siblingScope bool // callee is a closure of the same lexical scope (called through a variable): captured variables are shared
 	pos         bool // positive position of a clause that is being asserted: unbound disjuncts count as false
+	negated     bool // directly under a `!`: an exists here is a universal statement, boundary witnesses would only add work
 	pkg         *types.Package
 }
 
@@ -460,12 +461,32 @@ func (g *Gen) eval(n *Node, env *Env) (Term, error) {
 			env = env.clone()
 			env.pos = false
 		}
+		if n.Val == "!" && n.Args[0].Kind == "call" && n.Args[0].Val == "exists" {
+			env = env.clone()
+			env.negated = true
+		}
 		x, err := g.eval(n.Args[0], env)
 		if err != nil {
 			return Term{}, err
 		}
 		switch n.Val {
 		case "!":
+			if a := n.Args[0]; a.Kind == "call" && a.Val == "forall" && len(a.Args) == 5 && a.Args[1].Kind == "id" && a.Args[4].Kind == "un" && a.Args[4].Val == "!" {
+				// !forall(j, lo, hi, !Q) is exists(j, lo, hi, Q) written with an explicit trigger: add the same ground
+				// witnesses an `exists` gets
+				lo, e1 := g.eval(a.Args[2], env)
+				hi, e2 := g.eval(a.Args[3], env)
+				if e1 == nil && e2 == nil {
+					q := freshBound(env, a.Args[1].Val)
+					eb := env.clone()
+					eb.names[a.Args[1].Val] = Term{S: q, Sort: "Int", T: types.Typ[types.Int]}
+					if pq, err := g.evalBool(a.Args[4].Args[0], eb); err == nil {
+						if ws := g.existsWitnesses(a.Args[1].Val, q, lo.S, hi.S, pq, a.Args[4].Args[0], env); len(ws) > 0 {
+							return Term{S: "(or " + not(x.S) + " " + strings.Join(ws, " ") + ")", Sort: "Bool"}, nil
+						}
+					}
+				}
+			}
 			return Term{S: not(x.S), Sort: "Bool"}, nil
 		case "-":
 			return Term{S: "(- " + x.S + ")", Sort: x.Sort, T: x.T}, nil
@@ -756,19 +777,8 @@ func (g *Gen) evalCall(n *Node, env *Env) (Term, error) {
 			return Term{S: fmt.Sprintf("(forall ((%s Int)) %s)", q, body), Sort: "Bool"}, nil
 		}
 		ex := fmt.Sprintf("(exists ((%s Int)) (and %s %s))", q, rng, p)
-		if len(p) < 3000 && !strings.Contains(p, "(forall ") && !strings.Contains(p, "(exists ") && !strings.Contains(hi.S, "q!") && !strings.Contains(lo.S, "q!") {
-			// exists over [lo, hi): add the two boundary instances as ground disjuncts (an equivalent formula: each
-			// disjunct implies the existential). They are the witnesses that append / first-element goals need and
-			// spare the solver from guessing them (such goals flipped to `unknown` when an unrelated axiom was added).
-			var ws []string
-			for _, w := range []string{fmt.Sprintf("(- %s 1)", hi.S), lo.S} {
-				e3 := env.clone()
-				e3.names[args[0].Val] = Term{S: w, Sort: "Int", T: types.Typ[types.Int]}
-				if pw, err := g.evalBool(args[3], e3); err == nil {
-					ws = append(ws, fmt.Sprintf("(and (<= %s %s) (< %s %s) %s)", lo.S, w, w, hi.S, pw))
-				}
-			}
-			if len(ws) > 0 {
+		if !env.negated {
+			if ws := g.existsWitnesses(args[0].Val, q, lo.S, hi.S, p, args[3], env); len(ws) > 0 {
 				ex = "(or " + ex + " " + strings.Join(ws, " ") + ")"
 			}
 		}
@@ -1065,6 +1075,62 @@ func (g *Gen) evalCall(n *Node, env *Env) (Term, error) {
 		return t, nil
 	}
 	return Term{}, fmt.Errorf("unknown function %s in contract", name)
+}
+
+// existsWitnesses: ground instances of an existential statement `exists q in [lo,hi): P(q)` that are added to it as
+// disjuncts (an equivalent formula: each disjunct implies the existential). Candidates: the two boundary indices and
+// every ground index term t that occurs in P as (idx S t) for a slice S that P also indexes with q - e.g. the
+// `same(k)` of the "range k is still in the list" clauses. Terms inside a quantifier body are not in the solver's
+// E-graph, so without these instances such goals depend on model-based instantiation guessing the witness.
+func (g *Gen) existsWitnesses(varName, q, lo, hi, p string, body *Node, env *Env) []string {
+	if len(p) > 4000 || strings.Contains(hi, "q!") || strings.Contains(lo, "q!") {
+		return nil
+	}
+	cands := []string{fmt.Sprintf("(- %s 1)", hi), lo}
+	if !strings.Contains(p, "(forall ") && !strings.Contains(p, "(exists ") {
+		t := parseSx(p)
+		slices := map[string]bool{}
+		var walk func(n *sx)
+		var idxTerms []*sx
+		walk = func(n *sx) {
+			if n == nil || n.kids == nil {
+				return
+			}
+			if n.head() == "idx" && len(n.kids) == 3 {
+				idxTerms = append(idxTerms, n)
+				if n.kids[2].atom == q {
+					slices[n.kids[1].String()] = true
+				}
+			}
+			for _, k := range n.kids {
+				walk(k)
+			}
+		}
+		walk(t)
+		seen := map[string]bool{}
+		for _, n := range idxTerms {
+			arg := n.kids[2].String()
+			if !slices[n.kids[1].String()] || arg == q || strings.Contains(" "+arg+" ", " "+q+" ") || strings.Contains(arg, q+")") || strings.Contains(arg, "q!") || seen[arg] {
+				continue
+			}
+			seen[arg] = true
+			if len(cands) < 5 {
+				cands = append(cands, arg)
+			}
+		}
+	} else {
+		return nil
+	}
+	var ws []string
+	for _, w := range cands {
+		e3 := env.clone()
+		e3.negated = false
+		e3.names[varName] = Term{S: w, Sort: "Int", T: types.Typ[types.Int]}
+		if pw, err := g.evalBool(body, e3); err == nil {
+			ws = append(ws, fmt.Sprintf("(and (<= %s %s) (< %s %s) %s)", lo, w, w, hi, pw))
+		}
+	}
+	return ws
 }
 
 // specFnText renders the SMT definitions of all spec functions (in declaration order).
